@@ -10,7 +10,7 @@ package crypki
 //vsym:model google.golang.org/grpc/status.Code m17StatusCode
 //vsym:replay same-harness
 //vsym:expect-cover C17.failover.first-ok C17.failover.later-ok C17.failover.all-failed C17.failover.none-configured
-//vsym:bound H17_failover: 0..3 endpoints (thorough 0..4); per endpoint: dial error, RPC error, unparsable reply, or a reply with 1..2 certificates carrying 1-byte symbolic comments (printable, non-space)
+//vsym:bound H17_failover: 0..3 endpoints (thorough 0..4); per endpoint: dial error, RPC error, unparsable reply, or a reply with 1..2 certificates carrying empty or 1-byte symbolic comments (printable, non-space)
 //vsym:assume grpc dial / RPC and ssh.ParseAuthorizedKey are modelled (arbitrary outcome per endpoint; one key line per call); replay runs real in-process gRPC servers (bufconn) and real ed25519 certificates
 
 import (
@@ -173,7 +173,11 @@ func (s *n17Server) PostUserSSHCertificate(ctx context.Context, in *pb.SSHCertif
 	text := ""
 	for i := 0; i < e.ncerts; i++ {
 		line := ssh.MarshalAuthorizedKey(n17Cert(s.ep, i))
-		text += string(line[:len(line)-1]) + " " + e.comments[i] + "\n"
+		if e.comments[i] == "" {
+			text += string(line)
+		} else {
+			text += string(line[:len(line)-1]) + " " + e.comments[i] + "\n"
+		}
 	}
 	return &pb.SSHKey{Key: text}, nil
 }
@@ -224,8 +228,10 @@ func H17_failover() {
 		if e.outcome == o17Certs {
 			e.ncerts = 1 + vChoose(2, "ncerts")
 			for j := 0; j < e.ncerts; j++ {
-				c := vNondetString("comment", 1)
-				vAssume(vAnd(c[0] > 0x20, c[0] < 0x7f))
+				c := vNondetString("comment", vChoose(2, "comment-len"))
+				if len(c) == 1 {
+					vAssume(vAnd(c[0] > 0x20, c[0] < 0x7f))
+				}
 				e.comments = append(e.comments, c)
 			}
 			if firstOK < 0 {
